@@ -8,7 +8,8 @@ Sinks     construction / assignment of std::string or std::string_view from the 
           through class-hierarchy analysis).
 Guards    if (p), if (!p) return/throw, p ? .. : .., p == nullptr ? .. : .., p != nullptr && ..
 """
-from ..facts import walk, short
+from ..facts import walk, short, calls
+from ..inline import expanded_fn
 from ..front import AnalysisBroken
 from ..callgraph import fkey_of_fn
 
@@ -453,3 +454,342 @@ def run_dtor(chk, F, CG, rid="R-DTOR"):
                "the process is terminated" % (fn["q"], ", ".join(out[:3])), "%s:%s" % (f, fn["line"]))
     if n == 0:
         chk.ob(rid, "none", True, "the library defines no destructor with a body")
+
+
+# ---------------------------------------------------------------------------------------------- R-CHILDIDX
+# loops whose bound is not the node's own size, confirmed by reading: function -> (bound text, why it equals the size)
+CHILDIDX_EXEMPT = {
+    "checkInitialiser": ("get_type().size()",
+                         "the LIST node of an initialiser list and its record type are built together from the same "
+                         "count in StatementBuilder::decl_init_list (re-checked: R-CHILDIDX:exempt|decl_init_list); a "
+                         "LIST built by expr_nary has the empty type, whose size is 0"),
+}
+
+
+def run_childidx(chk, F, rid="R-CHILDIDX"):
+    """expression_t::get(i) / operator[](i) index the child vector without a range check.  A loop that walks the children
+    of a node X must be bounded by X's own get_size(): a bound taken from somewhere else (the number of parameters of
+    the called function's type, a count stored in another object) is only as good as the invariant that ties it to the
+    node - and the builder creates the node even when it has just reported that the counts differ."""
+    from ..inline import sites_with_conditions, strip
+    from . import gates as G
+    chk.rule(rid, "every access X.get(i + a) / X[i + a] to a child of an expression node with a loop variable i is "
+                  "reached only under `i < B` where B is X.get_size() + b with a + b <= 0 (directly, through a local "
+                  "such as `nb = X.get_size() - 3`, through min(X.get_size(), ..), or through an equality with "
+                  "X.get_size() established earlier on the path)")
+    n = 0
+    used = set()
+    seen_keys = {}
+    for fn in sorted(F.functions.values(), key=lambda f: (f.get("file") or "", f.get("line") or 0)):
+        fl = fn.get("file") or ""
+        if fn.get("body") is None or fl.startswith("/usr") or "/test/" in fl or not fl.endswith((".cpp", ".h", ".hpp")):
+            continue
+        inits, loopvars, adds = {}, set(), {}
+        for d in walk(fn["body"]):
+            if d.get("k") == "decl":
+                for v in d.get("vars", []):
+                    if v.get("init") is not None and v.get("id") is not None:
+                        inits[v["id"]] = v["init"]
+            if d.get("k") == "for" and isinstance(d.get("init"), dict) and d["init"].get("k") == "decl":
+                for v in d["init"].get("vars", []):
+                    loopvars.add(v.get("id"))
+            if d.get("k") == "bin" and d.get("op") in ("+=", "-=", "=") and strip(d["lhs"]).get("k") == "ref":
+                adds.setdefault(strip(d["lhs"]).get("id"), []).append(d)
+        if not loopvars:
+            continue
+
+        def root_of(a):
+            """a local that is a copy / clone of another node has that node's children"""
+            a0 = strip(a) if a is not None else None
+            seen = 0
+            while isinstance(a0, dict) and a0.get("k") == "ref" and a0.get("id") in inits and seen < 3:
+                i0 = strip(inits[a0["id"]])
+                if isinstance(i0, dict) and i0.get("k") == "call" and i0.get("name") in ("clone", "clone_deeper"):
+                    a0 = strip(i0.get("recv")) if i0.get("recv") is not None else {"k": "this"}
+                elif isinstance(i0, dict) and i0.get("k") == "construct" and len(i0.get("args", [])) == 1 and \
+                        (i0.get("cls") or "").endswith("expression_t"):
+                    a0 = strip(i0["args"][0])
+                else:
+                    break
+                seen += 1
+            return a0
+
+        def same(a, b):
+            a, b = root_of(a), root_of(b)
+            if isinstance(a, dict) and a.get("k") == "this":
+                a = None
+            if isinstance(b, dict) and b.get("k") == "this":
+                b = None
+            if a is None or b is None:
+                return a is None and b is None
+            return G.path_of(a) is not None and G.path_of(a) == G.path_of(b)
+
+        def size_off(e, X, depth=0, eqs=()):
+            """b such that e <= X.get_size() + b on every path, or None"""
+            e = strip(e)
+            if not isinstance(e, dict) or depth > 4:
+                return None
+            for txt, bb in eqs:
+                if txt == short(e):
+                    return bb       # an equality with X.get_size() established earlier on the path
+            if e.get("k") == "call" and e.get("name") == "get_size" and e.get("cls") == "UTAP::expression_t" and \
+                    same(e.get("recv"), X):
+                return 0
+            if e.get("k") == "bin" and e.get("op") in ("+", "-") and strip(e["rhs"]).get("k") == "int":
+                b = size_off(e["lhs"], X, depth + 1, eqs)
+                return None if b is None else b + (strip(e["rhs"])["v"] if e["op"] == "+" else -strip(e["rhs"])["v"])
+            if e.get("k") == "call" and e.get("name") in ("min",):
+                bs = [size_off(a, X, depth + 1, eqs) for a in e.get("args", [])]
+                bs = [b for b in bs if b is not None]
+                return min(bs) if bs else None
+            if e.get("k") == "ref" and e.get("dk") == "local" and e.get("id") not in loopvars and \
+                    (e.get("id") in inits or e.get("id") in adds):
+                # the largest value the local can have: its initialiser or any value assigned to it, plus every `+=`
+                cands = []
+                if e.get("id") in inits:
+                    cands.append(size_off(inits[e["id"]], X, depth + 1, eqs))
+                extra = 0
+                for a in adds.get(e["id"], []):
+                    r = strip(a["rhs"])
+                    if a["op"] == "=":
+                        cands.append(size_off(a["rhs"], X, depth + 1, eqs))
+                    elif r.get("k") != "int":
+                        return None
+                    elif a["op"] == "+=":
+                        extra += r["v"]       # `-=` only lowers the bound: ignored (conservative)
+                if not cands or any(c is None for c in cands):
+                    return None
+                return max(cands) + extra
+            return None
+
+        def index_parts(e):
+            """(loop variable id, a) for e = i + a, else None"""
+            e = strip(e)
+            if isinstance(e, dict) and e.get("k") == "ref" and e.get("id") in loopvars:
+                return e["id"], 0
+            if isinstance(e, dict) and e.get("k") == "bin" and e.get("op") == "+":
+                for x, y in ((e["lhs"], e["rhs"]), (e["rhs"], e["lhs"])):
+                    x, y = strip(x), strip(y)
+                    if x.get("k") == "ref" and x.get("id") in loopvars and y.get("k") == "int":
+                        return x["id"], y["v"]
+            return None
+
+        def is_site(x):
+            if x.get("k") != "call" or x.get("cls") != "UTAP::expression_t":
+                return False
+            if not (x.get("name") == "get" or (x.get("ck") == "op" and x.get("op") == "[]")):
+                return False
+            return bool(x.get("args")) and index_parts(x["args"][-1]) is not None
+        for site, conds in sites_with_conditions(fn["body"], is_site):
+            vid, a = index_parts(site["args"][-1])
+            X = site.get("recv") if site.get("recv") is not None else (site["args"][0] if len(site["args"]) > 1 else None)
+            ok, why = False, "no bound on the loop variable found"
+            # equalities with X.get_size() established on the path: other -> offset
+            eqs = []
+            for c, t in conds:
+                c0 = strip(c)
+                parts = []
+                if isinstance(c0, dict) and c0.get("k") == "bin" and c0.get("op") == "||" and not t:
+                    def flat(z):
+                        z = strip(z)
+                        if z.get("k") == "bin" and z.get("op") == "||":
+                            flat(z["lhs"])
+                            flat(z["rhs"])
+                        else:
+                            parts.append((z, False))
+                    flat(c0)
+                else:
+                    parts.append((c0, t))
+                for z, tz in parts:
+                    if isinstance(z, dict) and z.get("k") == "bin" and ((z.get("op") == "==" and tz) or (z.get("op") == "!=" and not tz)):
+                        for p, q in ((z["lhs"], z["rhs"]), (z["rhs"], z["lhs"])):
+                            b = size_off(q, X)
+                            if b is not None:
+                                eqs.append((short(p), b))
+            for c, t in conds:
+                c0 = strip(c)
+                if not (t and isinstance(c0, dict) and c0.get("k") == "bin" and c0.get("op") in ("<", "!=") and
+                        strip(c0["lhs"]).get("k") == "ref" and strip(c0["lhs"]).get("id") == vid):
+                    continue
+                b = size_off(c0["rhs"], X, 0, tuple(eqs))
+                if b is None:
+                    why = "the loop is bounded by `%s`, which is not derived from the size of `%s`" % (
+                        short(c0["rhs"])[:50], short(X)[:30] if X is not None else "this")
+                    continue
+                if a + b <= 0:
+                    ok = True
+                else:
+                    why = "index i + %d under i < size %+d" % (a, b)
+            n += 1
+            key = fn["name"]
+            if not ok and key in CHILDIDX_EXEMPT and CHILDIDX_EXEMPT[key][0] in why:
+                used.add(key)
+                chk.ob(rid, "%s|%s|exempt" % (fn["name"], short(site)[:30]), True, "", "%s:%s" % (fn["file"], site.get("l")),
+                       sample="%s: %s exempt - %s" % (fn["name"], short(site)[:30], CHILDIDX_EXEMPT[key][1][:60]))
+                continue
+            base = "%s|%s" % (fn["name"], short(site)[:30])
+            seen_keys[base] = seen_keys.get(base, 0) + 1
+            chk.ob(rid, base if seen_keys[base] == 1 else "%s#%d" % (base, seen_keys[base]), ok,
+                   "%s reads child `%s` of an expression node in a loop, but %s: when the node has fewer children "
+                   "(the builder creates a call node even after reporting `$Wrong_number_of_arguments`) the access is "
+                   "out of range - undefined behaviour, in practice a crash" % (fn["q"], short(site)[:40], why),
+                   "%s:%s" % (fn["file"], site.get("l")), sample="%s: %s bounded by the node's size" % (fn["name"], short(site)[:30]))
+    if n < 30:
+        raise AnalysisBroken("only %d loop-indexed child accesses found" % n)
+    if "checkInitialiser" in used:
+        dl = F.fn("UTAP::StatementBuilder::decl_init_list")
+        pn = dl["params"][0]["name"]
+        loops = [x for x in walk(dl["body"]) if x.get("k") == "for"]
+        ok = bool(loops) and all(strip(x.get("c") or {}).get("k") == "bin" and strip(strip(x["c"])["rhs"]).get("name") == pn
+                                 for x in loops) and \
+            any(c.get("name") == "create_record" for c in calls(dl["body"])) and \
+            any(c.get("name") == "create_nary" for c in calls(dl["body"]))
+        chk.ob(rid, "exempt|decl_init_list", ok,
+               "decl_init_list no longer builds the children of the LIST node and the fields of its record type from "
+               "the same count: checkInitialiser indexes the children by the size of the type",
+               "%s:%s" % (dl["file"], dl["line"]))
+
+
+# ---------------------------------------------------------------------------------------------- R-SYMDEREF
+# expression_t::get_symbol() returns the empty symbol for every kind that does not name one (a constant, an arithmetic
+# result, a sum over processes ...).  symbol_t::get_type/get_name/get_data dereference the symbol's data.  Sites where
+# the result of get_symbol() is dereferenced without a test, confirmed by reading: (function, receiver) -> why the
+# receiver always names a symbol there.
+SYMDEREF_EXEMPT = {
+    ("print", "get(0)"): "child 0 of FORALL / EXISTS / SUM is the binder identifier that expr_forall_end / expr_exists_end / "
+                         "expr_sum_end create from the symbol added by the _begin callback",
+    ("checkExpression", "expr[0]"): "child 0 of FORALL / EXISTS / SUM (binder identifier, see print) and of SPAWN / NUMOF "
+                                    "(the dynamic template's identifier, resolved by expr_spawn / expr_numof before the "
+                                    "node is built)",
+    ("collect_possible_reads", "get(0)"): "child 0 of FUN_CALL is the identifier of the function; expr_call_end builds "
+                                          "FUN_CALL only for an identifier whose symbol has a FUNCTION type",
+    ("collect_possible_writes", "get(0)"): "as collect_possible_reads",
+    ("expr_call_end", "id"): "inside `case FUNCTION` / `case PROCESS_SET` of the switch over the callee's type kind: an "
+                             "expression has a function or process-set type only if it is the identifier of one (such "
+                             "values cannot be computed)",
+    ("expr_call_end", "expr[0]"): "the same operand after it was stored as element 0 of the argument vector",
+}
+
+
+def run_symderef(chk, F, rid="R-SYMDEREF"):
+    from ..inline import sites_with_conditions, strip
+    chk.rule(rid, "every dereference (get_type / get_name / get_data / get_frame / set_type) of the result of "
+                  "expression_t::get_symbol() - chained or through a local - is reached only where the path conditions "
+                  "rule out the empty symbol (a comparison with symbol_t() that, together with the other conditions on "
+                  "the path, cannot be true), or is a listed site whose receiver always names a symbol")
+    DEREF = ("get_type", "get_name", "get_data", "get_frame", "get_position", "set_type", "set_data")
+
+    def unwrap(e):
+        e = strip(e) if e is not None else None
+        while isinstance(e, dict) and e.get("k") == "construct" and len(e.get("args", [])) == 1:
+            e = strip(e["args"][0])
+        return e
+
+    def is_getsym(e):
+        e = unwrap(e)
+        return isinstance(e, dict) and e.get("k") == "call" and e.get("name") == "get_symbol" and \
+            e.get("cls") == "UTAP::expression_t"
+    n = 0
+    used = set()
+    for fn in sorted(F.functions.values(), key=lambda f: (f.get("file") or "", f.get("line") or 0)):
+        fl = fn.get("file") or ""
+        if fn.get("body") is None or fl.startswith("/usr") or "/test/" in fl:
+            continue
+        if fn.get("static") and not fn.get("cls") and any(
+                any(c.get("fn") == fn["q"] for c in calls(g.get("body"))) for g in F.functions.values()
+                if g.get("file") == fl and g is not fn and g.get("body") is not None):
+            continue        # a file-local worker: judged inside the functions that call it (expanded there)
+        fn = expanded_fn(fn, F, accept=lambda t: bool(t.get("static")) and not t.get("cls"), maxdepth=2)
+        symlocals = {}
+        for d in walk(fn["body"]):
+            if d.get("k") == "decl":
+                for v in d.get("vars", []):
+                    if v.get("init") is not None and is_getsym(v["init"]):
+                        symlocals[v.get("id")] = unwrap(v["init"])
+            # `symbol = get(0).get_symbol();` assigned to a local declared earlier
+            lhs = rhs = None
+            if d.get("k") == "bin" and d.get("op") == "=":
+                lhs, rhs = d["lhs"], d["rhs"]
+            elif d.get("k") == "call" and d.get("ck") == "op" and d.get("op") == "=" and d.get("recv") is not None and d.get("args"):
+                lhs, rhs = d["recv"], d["args"][0]
+            if lhs is not None and strip(lhs).get("k") == "ref" and strip(lhs).get("dk") == "local" and is_getsym(rhs):
+                symlocals[strip(lhs).get("id")] = unwrap(rhs)
+
+        def source(x):
+            """the get_symbol() call whose result call x dereferences, and the text that stands for that value"""
+            if x.get("k") != "call" or x.get("cls") != "UTAP::symbol_t" or x.get("name") not in DEREF or x.get("recv") is None:
+                return None
+            r = unwrap(x["recv"])
+            if is_getsym(r):
+                return r, {short(r)}
+            if isinstance(r, dict) and r.get("k") == "ref" and r.get("id") in symlocals:
+                return symlocals[r["id"]], {short(r), short(symlocals[r["id"]])}
+            return None
+        for site, conds in sites_with_conditions(fn["body"], lambda x: source(x) is not None):
+            src, names = source(site)
+            recv_txt = short(src.get("recv")) if src.get("recv") is not None else "this"
+            n += 1
+            # does the path rule out `value == symbol_t()`?  assume it and look for a contradiction
+            def is_empty_test(c):
+                """+1 if c is `value == symbol_t()`, -1 if `value != symbol_t()`, else 0"""
+                c = strip(c)
+                if not isinstance(c, dict):
+                    return 0
+                sides, op = None, None
+                if c.get("k") == "bin" and c.get("op") in ("==", "!="):
+                    sides, op = (c["lhs"], c["rhs"]), c["op"]
+                elif c.get("k") == "call" and c.get("ck") == "op" and c.get("op") in ("==", "!="):
+                    a = ([c["recv"]] if c.get("recv") is not None else []) + list(c.get("args", []))
+                    sides, op = (tuple(a[:2]) if len(a) >= 2 else None), c["op"]
+                if not sides:
+                    return 0
+                for x, y in (sides, sides[::-1]):
+                    x, y = unwrap(x), unwrap(y)
+                    if isinstance(y, dict) and y.get("k") == "construct" and not y.get("args") and \
+                            (y.get("cls") or "").endswith("symbol_t") and short(x) in names:
+                        return 1 if op == "==" else -1
+                return 0
+            known = {}
+            for c, t in conds:
+                c0, neg = strip(c), False
+                while isinstance(c0, dict) and c0.get("k") == "un" and c0.get("op") == "!":
+                    c0, neg = strip(c0["e"]), not neg
+                if not (isinstance(c0, dict) and c0.get("k") == "bin" and c0.get("op") in ("&&", "||")):
+                    known[short(c0)] = (t != neg)
+
+            def ev(c):
+                c = strip(c)
+                if not isinstance(c, dict):
+                    return None
+                e = is_empty_test(c)
+                if e:
+                    return e == 1          # under the assumption that the value is the empty symbol
+                if c.get("k") == "un" and c.get("op") == "!":
+                    v = ev(c["e"])
+                    return None if v is None else not v
+                if c.get("k") == "bin" and c.get("op") in ("&&", "||"):
+                    a, b = ev(c["lhs"]), ev(c["rhs"])
+                    if c["op"] == "&&":
+                        return False if (a is False or b is False) else (True if a and b else None)
+                    return True if (a is True or b is True) else (False if a is False and b is False else None)
+                return known.get(short(c))
+            guarded = any(ev(c) is not None and ev(c) != t for c, t in conds)
+            key = (fn["name"], recv_txt)
+            if not guarded and key in SYMDEREF_EXEMPT:
+                used.add(key)
+                chk.ob(rid, "%s|%s|%s|listed" % (fn["name"], recv_txt, site.get("name")), True, "",
+                       "%s:%s" % (fn["file"], site.get("l")),
+                       sample="%s: %s.get_symbol().%s - listed: %s" % (fn["name"], recv_txt, site.get("name"),
+                                                                       SYMDEREF_EXEMPT[key][:50]))
+                continue
+            chk.ob(rid, "%s|%s|%s" % (fn["name"], recv_txt, site.get("name")), guarded,
+                   "%s dereferences the symbol of `%s` (%s) without ruling out the empty symbol: get_symbol() returns it "
+                   "for every expression that does not name a variable - e.g. the value of `sum (p : Child) p`, which has "
+                   "the type of a process - and symbol_t::%s then dereferences a null pointer" %
+                   (fn["q"], recv_txt, short(site)[:50], site.get("name")), "%s:%s" % (fn["file"], site.get("l")),
+                   sample="%s: %s guarded against the empty symbol" % (fn["name"], short(site)[:40]))
+    if n < 12:
+        raise AnalysisBroken("only %d dereferences of get_symbol() results found" % n)
+    for key in SYMDEREF_EXEMPT:
+        if key not in used:
+            chk.note("R-SYMDEREF: the listed site %s no longer exists" % (key,))
